@@ -593,6 +593,19 @@ def _observe_whole(ctx, m, nv, want_solution, deep, sim):
             info = info if isinstance(info, list) else [info]
             for k in range(nv):
                 out[k]["check_steady"] = info[k]["discrepancies"]
+    if deep:
+        # parameter and std values carried by the databoxes built from the model (levels, deviations, zeros)
+        ir = _ir()
+        for label, maker in (("steady_deviation", lambda: ir.Databox.steady(m, ctx.span, deviation=True)),
+                             ("steady_levels", lambda: ir.Databox.steady(m, ctx.span)),
+                             ("zero", lambda: ir.Databox.zero(m, ctx.span))):
+            try:
+                box = maker()
+            except Exception:  # noqa: BLE001 - e.g. no steady state yet: not an observation
+                continue
+            keys = set(box.keys())
+            for k in range(nv):
+                out[k]["box:" + label] = {n: _per_variant(box[n], nv)[k] for n in list(ctx.pn) + list(ctx.sn) if n in keys}
     if sim:
         res = m.simulate(ctx.db_sim, ctx.span, method="first_order")
         for k in range(nv):
@@ -648,6 +661,14 @@ def _compare_variant(col, ctx, tag, got, ref, var, where, nv_is_one=True):
     for n in ctx.sn:
         col.check(got["stds"][n] == var.stds.get(n), f"{tag}:std_value",
                   lambda: f"{where}: {n} reads {got['stds'][n]!r}, assigned {var.stds.get(n)!r}")
+    for label in ("steady_deviation", "steady_levels", "zero"):
+        box = got.get("box:" + label)
+        if box is None:
+            continue
+        for n, val in box.items():
+            want_ = var.params.get(n) if n in ctx.pn else var.stds.get(n)
+            col.check(val == want_, f"{tag}:databox_{label}",
+                      lambda: f"{where}: Databox.{'zero' if label == 'zero' else 'steady'} carries {n}={val!r} for this variant, assigned {want_!r}")
     d = _differs(got["levels"], ref["levels"])
     col.check(d is None, f"{tag}:steady_levels", lambda: f"{where}: steady levels of {ctx.vars}: {d}")
     if var.changes_judged:
@@ -936,6 +957,8 @@ def _port_case(draw):
         "steady_alt": draw(st.lists(st.integers(0, spec["n"] - 1), max_size=2, unique=True)),
         "json": draw(st.booleans()),
         "description": draw(st.sampled_from(["", "A model", "x \"quoted\" y"])),
+        # declared exogenous variables [name, in logs]: kinds and log status must survive the portable form as well
+        "exog": draw(st.lists(st.tuples(st.sampled_from(["zf", "tx"]), st.booleans()).map(list), max_size=2, unique_by=lambda t: t[0])),
     }
 
 
@@ -948,6 +971,20 @@ def _port_source(case):
         ln = lines[at + 1 + i]
         body = ln.strip().rstrip(";")
         lines[at + 1 + i] = f"    {body} !! {re.sub(r'[{][-+][0-9]+[}]', '', body)};"
+    exog = case.get("exog") or []
+    if exog:
+        block = ["!exogenous-variables", "    " + ", ".join(n for n, _ in exog)]
+        logs = [n for n, lg in exog if lg]
+        if logs:
+            block += ["!log-variables", "    " + ", ".join(logs)]
+        at = lines.index("!transition-equations")
+        lines[at:at] = block
+        # the exogenous variables enter the first equation with a zero weight (no change of meaning)
+        ln = lines[at + len(block) + 1]
+        body = ln.strip().rstrip(";")
+        if "!!" not in body:
+            extra = "".join((f" * {n}^0" if spec["log"] else f" + 0*{n}") for n, _ in exog)
+            lines[at + len(block) + 1] = f"    {body}{extra};"
     return "\n".join(lines)
 
 
@@ -963,6 +1000,8 @@ def _classify_port(case):
         labels.append("log_variables")
     if case["steady_alt"]:
         labels.append("steady_versions")
+    if case.get("exog"):
+        labels.append("exogenous_variables" + ("_log" if any(lg for _, lg in case["exog"]) else ""))
     if spec["meas"]:
         labels.append("measurement_block")
     nontrivial = bool(spec["params"]) and (case["linear"] or case["flat"] or case["deterministic"] or spec["log"] or case["nv"] > 1)
